@@ -101,6 +101,9 @@ class Model:
         return sorted((o.loc, o.path) for o in self.refs.get(node, []) if o.valid and (loc is None or o.loc == loc))
 
 
+MOUNTS = {"/mnt": "/scratch/j1", "/mnt/d": "/cache/x"}
+
+
 def key(loc):
     return (loc.deployment, loc.name)
 
@@ -112,7 +115,7 @@ async def history(relations=True, wrapped=True, steps=None, duplicates=False):
     host = ExecutionLocation(name="h", deployment="depH")
     locs = [ExecutionLocation(name="a", deployment="depA"), ExecutionLocation(name="b", deployment="depB")]
     if wrapped:
-        locs.append(ExecutionLocation(name="box", deployment="depC", wraps=host, mounts={"/mnt": "/scratch/j1"}))
+        locs.append(ExecutionLocation(name="box", deployment="depC", wraps=host, mounts=dict(MOUNTS)))
     alllocs = locs + ([host] if wrapped else [])
     model = Model()
     real = {}  # (loc key, path) -> latest real DataLocation returned by register_path
@@ -171,7 +174,9 @@ async def history(relations=True, wrapped=True, steps=None, duplicates=False):
                     dups.add((key(loc), p))
                 real[(key(loc), p)] = (d, o, loc)
                 if loc.wraps is not None and p.startswith("/mnt/"):
-                    inner = "/scratch/j1" + p[len("/mnt"):]
+                    # nested mount points: the most specific one decides where the path lives on the wrapped location
+                    mount = max((m for m in MOUNTS if p == m or p.startswith(m + "/")), key=len)
+                    inner = MOUNTS[mount] + p[len(mount):]
                     oi = model.register(key(host), inner)
                     model.relate(o, oi)
             elif r < 0.7:
